@@ -44,9 +44,17 @@ def main():
         try:
             for p in props:
                 t0 = time.time()
-                c = sh([sys.executable, os.path.join(ROOT, "tools", "check.py"), "--property", p, "--tier", args.tier], cwd=ROOT)
+                env = dict(os.environ, VERIF_EVIDENCE_DIR=os.path.join(ROOT, "work", "seeded-evidence"))
+                c = sh([sys.executable, os.path.join(ROOT, "tools", "check.py"), "--property", p, "--tier", args.tier], cwd=ROOT, env=env)
                 lines = [l for l in c.stdout.split("\n") if l.startswith("VIOLATION") or l.startswith("KNOWN-FINDING")]
                 res[p] = {"rc": c.returncode, "lines": lines, "s": round(time.time() - t0, 1)}
+                # keep the replay next to the seed so that it documents what the check reported
+                for l in lines:
+                    if "replay=" in l:
+                        rp = l.split("replay=")[1].split()[0]
+                        if os.path.exists(rp):
+                            import shutil
+                            shutil.copy(rp, os.path.join(d, f"replay-{p}.json"))
                 print(f"{sid} / {p}: rc={c.returncode} {lines[:1]}", flush=True)
         finally:
             sh(["git", "-C", REPO, "checkout", "--", "."])
